@@ -330,6 +330,35 @@ theorem malloc_some (grow : Nat → Nat) (fresh : Nat) (s : DynamicPool) (n : Na
     subst ha
     simp [pushBlk]; omega
 
+/-- a refusal fires in `malloc` exactly when a page is needed, allowed, and the allocator says no -/
+theorem malloc_refused_iff (grow : Nat → Nat) (fresh : Nat) (s : DynamicPool) (n : Nat) (m : Mem) :
+    (malloc grow fresh s n m).2.2.nrefused ≠ m.nrefused ↔
+      (n < s.topPageSize ∧ ¬ n + padOf s.isPacked s.ab n ≤ s.topPageSize - s.free ∧ s.isFixed = false ∧
+        n + padOf s.isPacked s.ab n ≤ grow s.topPageSize ∧ m.alloc.1 = false) := by
+  have hat : m.alloc.1 = true → m.alloc.2.nrefused = m.nrefused := by
+    intro h; unfold Mem.alloc at *; split <;> simp_all
+  have haf : m.alloc.1 = false → m.alloc.2.nrefused = m.nrefused + 1 := by
+    intro h; unfold Mem.alloc at *; split <;> simp_all
+  rcases malloc_cases grow fresh s n m _ rfl with ⟨c1, e⟩ | ⟨c1, c2, e⟩ | ⟨c1, c2, c3, e⟩ | ⟨c1, c2, c3, c4, c5, e⟩ | ⟨c1, c2, c3, c4, c5, e⟩
+  · rw [e]; constructor
+    · intro h; exact (h rfl).elim
+    · intro h; omega
+  · rw [e]; constructor
+    · intro h; exact (h rfl).elim
+    · intro h; exact (h.2.1 c2).elim
+  · rw [e]; constructor
+    · intro h; exact (h rfl).elim
+    · intro h
+      rcases c3 with c3 | c3
+      · rw [h.2.2.1] at c3; cases c3
+      · omega
+  · rw [e]; constructor
+    · intro _; exact ⟨c1, c2, c3, c4, c5⟩
+    · intro _; rw [haf c5]; omega
+  · rw [e]; constructor
+    · intro h; exact (h (hat c5)).elim
+    · intro h; rw [h.2.2.2.2] at c5; cases c5
+
 /-! ### calloc -/
 theorem abs_fillTop (s : DynamicPool) (off n v : Nat) :
     ({ s with pages := fillTop s.pages off n v } : DynamicPool).abs = s.abs.fillTop off n v := by
